@@ -102,9 +102,12 @@ def run(ctx):
     ctx.clause = ("every value that can reach the exit status of abidiff/abicompat/abipkgdiff is a combination of "
                   "the documented bits with INCOMPATIBLE=>CHANGE and USAGE=>ERROR; the INCOMPATIBLE predicate implies "
                   "each reporter's net-change predicate; each reporter's net-change predicate tests exactly the "
-                  "counters its summary prints")
-    ctx.rules = ["R-STATUS/S1-S4", "R-ATOMS/L1", "R-ATOMS/L1'", "R-ATOMS/SUMMARY"]
+                  "counters its summary prints; every section of the report and the filtered-out counter behind the verdict "
+                  "are switched off by the same show_* options")
+    ctx.rules = ["R-STATUS/S1-S4", "R-ATOMS/L1", "R-ATOMS/L1'", "R-ATOMS/SUMMARY", "R-OPTGATE"]
     l1 = check_atoms(ctx)
+    from rules import supprapp_rules
+    supprapp_rules.check_optgate(ctx, ctx.program(at.UNITS))
     total = 0
     for tool in ("abidiff", "abicompat", "abipkgdiff"):
         P, I, main, rets = sr.analyse_tool(ctx, tool, infeasible=l1_prune if l1 else None)
